@@ -51,7 +51,6 @@ LEVEL_NOTE = ("Partial: Mako, file naming and importlib are observed only; ances
 IDS = ["r{k}a{k}x", "r{k}b'{k}q", 'r{k}c"{k}d', "r{k}dé{k}ü", "r{k}e {k}sp", "r{k}f​{k}zw", "R{k}G{k}Mixed", "r{k}h_{k}"]
 MSGS = ["plain message", "it's quoted", 'say "hi" twice', "multi\nline\nmessage", "unicodé 中文 ✓", "tab\there", "",
         "ends with quote'", "percent %s %(x)s ${y}", "a\u200bzero", "<%text>mako</%text> ## comment", "x" * 70]
-BAD_MSGS = ['has """ triple', "back\\slash n", "fix C:\\users\\x", 'ends with backslash\\']
 LABELS = ["lab{k}", "br'{k}", "naïve{k}"]
 FINDING_IDS = ["C17-docstring-triple-quote", "C17-docstring-backslash", "C17-revid-equals-label"]
 
